@@ -357,7 +357,7 @@ class C10(Check):
                   'exact Fraction judge (rounded originals as half-spaces) and certified exact LP (meaning after the reader\'s simplify).')
     lean_modules = ["Pacti.Props.C10"]
     theorems = ["Pacti.C10.machine_roundtrip", "Pacti.C10.fromDict_wf", "Pacti.C10.fromDict_missing", "Pacti.C10.mk_normal",
-                "Pacti.C10.round4_close", "Pacti.C10.fmt4g_round4_same_digits", "Pacti.C10.readNum_fmt4g", "Pacti.C10.fmt4g_readNum_fmt4g", "Pacti.C10.round4_idem", "Pacti.C10.round4_digits", "Pacti.C10.round4_neg",
+                "Pacti.C10.round4_close", "Pacti.C10.fmt4g_round4_same_digits", "Pacti.C10.readNum_fmt4g", "Pacti.C10.fmt4g_round4", "Pacti.C10.fmt4g_readNum_fmt4g", "Pacti.C10.round4_idem", "Pacti.C10.round4_digits", "Pacti.C10.round4_neg",
                 "Pacti.C10.fold_eq_sound", "Pacti.C10.fold_abs_sound", "Pacti.C10.fold_abs0_sound", "Pacti.C10.exact_is_opposite",
                 "Pacti.C10.folds_sound", "Pacti.C10.folds_length_le"]
     quick_n = 1500
